@@ -432,8 +432,10 @@ def build_evidence(mod, tier, batch_seed, outcomes, scns, harness, reported, kno
                 digests.update(o["distinct_digests"])
             else:
                 digests.add(o.get("digest") or f"#{k}")
+        allowed = set(getattr(mod, "PROBES", []) or [])
         for p, v in (o.get("probes") or {}).items():
-            probes[p] += int(v)
+            if not allowed or p in allowed:
+                probes[p] += int(v)
         for p, v in (o.get("faults") or {}).items():
             faults[p] += int(v)
         s = o.get("sched") or {}
